@@ -198,6 +198,9 @@ func init() {
 	}
 	add("MatrixRankTest", 1024, false, func(in *Input) Res { return f2(randomness.MatrixRankTest(in.Bits)) })
 	add("MatrixRankTestBytes", 1024, false, func(in *Input) Res { return f2(randomness.MatrixRankTestBytes(in.Bytes, 32, 32)) })
+	// the parameterised entry points at other matrix sizes (whatever they return, they return it purely)
+	add("MatrixRankProto(16x16)", 1024, false, func(in *Input) Res { return f2(randomness.MatrixRankProto(in.Bits, 16, 16)) })
+	add("MatrixRankTestBytes(8x8)", 1024, false, func(in *Input) Res { return f2(randomness.MatrixRankTestBytes(in.Bytes, 8, 8)) })
 	add("CumulativeTest(fwd)", 128, false, func(in *Input) Res { return f2(randomness.CumulativeTest(in.Bits, true)) })
 	add("CumulativeTest(bwd)", 128, false, func(in *Input) Res { return f2(randomness.CumulativeTest(in.Bits, false)) })
 	for _, m := range []int{2, 5, 7} {
@@ -525,7 +528,16 @@ func Execute(t *testing.T, c *Cfg, sim bool) *Outcome {
 			wg.Add(1)
 			go func(tt int) { defer wg.Done(); taskBody(tt) }(ti)
 		}
-		wg.Wait()
+		done := make(chan struct{})
+		go func() { wg.Wait(); close(done) }()
+		select {
+		case <-done:
+		case <-time.After(3 * time.Minute):
+			// real goroutines: callers that block each other for good must not
+			// block the monitor process
+			out.Mismatches = append(out.Mismatches, Mismatch{"hang", "concurrent callers (real goroutines) did not finish within 3 minutes"})
+			return out
+		}
 	}
 	for ti, steps := range c.Tasks {
 		for si, s := range steps {
